@@ -222,3 +222,47 @@ def definition(t):
     caches = ({}, {}, {})
     cs = [container(c, caches) for c in t[2]]
     return definitions.XtcePacketDefinition(cs, root_container_name=uS(t[1]))
+
+
+# ---------------------------------------------------------------------------------------------------
+# definitions assembled from objects, from the by-name syntax (inverse of xser.ldef)
+def ldef(t):
+    """`(ldef root date ssn prefix nsmap (lpt..) (lp..) (lc..))` -> XtcePacketDefinition built from objects."""
+    from space_packet_parser.xtce import definitions, parameter_types as pt, parameters as prm, containers as cont
+    import warnings
+    assert t[0] == "ldef"
+    types = {}
+    for x in t[6]:
+        tag, name, unit, enc = uS(x[1]), uS(x[2]), optS(x[3]), encoding(x[4])
+        cls = getattr(pt, tag)
+        with warnings.catch_warnings():
+            warnings.simplefilter("ignore")
+            if tag == "EnumeratedParameterType":
+                obj = cls(name, enc, enumeration={uV(k): uS(v) for k, v in x[5]}, unit=unit)
+            elif tag in ("AbsoluteTimeParameterType", "RelativeTimeParameterType"):
+                obj = cls(name, enc, unit=unit, epoch=optS(x[6]), offset_from=optS(x[7]))
+            else:
+                obj = cls(name, enc, unit)
+        types[name] = obj
+    params = {}
+    for x in t[7]:
+        params[uS(x[1])] = prm.Parameter(uS(x[1]), types[uS(x[2])], short_description=optS(x[3]),
+                                         long_description=optS(x[4]))
+    conts = {}
+    specs = {uS(x[1]): x for x in t[8]}
+
+    def build(name):
+        if name in conts:
+            return conts[name]
+        x = specs[name]
+        ents = [params[uS(e[1])] if e[0] == "p" else build(uS(e[1])) for e in x[2]]
+        c = cont.SequenceContainer(name, ents, short_description=optS(x[3]), long_description=optS(x[4]),
+                                   base_container_name=optS(x[5]), restriction_criteria=[criterion(r) for r in x[6]],
+                                   abstract=uB(x[7]), inheritors=[uS(n) for n in x[8]])
+        conts[name] = c
+        return c
+    for name in specs:
+        build(name)
+    ns = {(None if k == "-" else uS(k)): uS(v) for k, v in t[5]}
+    return definitions.XtcePacketDefinition([conts[n] for n in specs], ns=ns, xtce_ns_prefix=optS(t[4]),
+                                            root_container_name=uS(t[1]), space_system_name=optS(t[3]), date=optS(t[2]))
